@@ -9,7 +9,8 @@ LEVEL_TEXT = ("Proof + correspondence: Coq theorems -- for every string and EVER
               "PostScript font name has only printable ASCII, no space and none of []{}<>()/% (character sets regenerated from the "
               "source; the pre-repair code is shown refuted); explicit vertical-metrics attributes are returned as given; the "
               "derived usWinAscent/usWinDescent/sTypoLineGap are never negative for any input (pre-repair formula shown refuted); "
-              "intListToNum sets bit k iff start+k is listed. The models are compared with normalizeStringForPostscript, "
+              "intListToNum sets bit k iff start+k is listed; the vertical tables are built exactly when all three vhea metrics are "
+              "present and the generated .notdef's advance height is never rejected (Info/Vertical.v, after repair F22). The models are compared with normalizeStringForPostscript, "
               "intListToNum and with the OS/2, hhea, head fields of compiled+reloaded TTF/OTF fonts for random subsets of "
               "present/absent attributes; `explicit_ok` is evaluated in Coq on the implementation's fields. Name-table strings, "
               "CFF top-dict strings, other OS/2/post fields and compile/save/reload totality for non-ASCII names are checked on "
@@ -133,6 +134,7 @@ def explore(ctx):
     # ---------------- (b) vertical metrics fallbacks
     rng = ctx.subrng("vm")
     cases, meta = [], []
+    vcases, vmeta = [], []
     for i in range(ctx.budget(50, 400)):
         info = {}
         for a in ATTRS:
@@ -173,6 +175,10 @@ def explore(ctx):
             ctx.spec_failure(case, "vertical tables %s although %d of the 3 vhea metrics are set" % ("built" if "vhea" in tt else "missing", len(vh)))
         elif "vhea" in tt and (tt["vhea"].ascent, tt["vhea"].descent, tt["vhea"].lineGap) != tuple(vh[a] for a in VH):
             ctx.spec_failure(case, "explicit vhea metrics %r came out as %r" % (vh, (tt["vhea"].ascent, tt["vhea"].descent, tt["vhea"].lineGap)))
+        vcases.append(G.tup("(mkInfo %s)" % " ".join(g_optq(info.get(a)) for a in ATTRS),
+                            *[G.opt(None if a not in vh else G.z(vh[a]), "Z") for a in VH], G.b("vhea" in tt),
+                            G.opt(G.z(tt["vmtx"][".notdef"][0]) if "vmtx" in tt else None, "Z")))
+        vmeta.append(dict(case, vertical_tables="vhea" in tt, notdef_advance_height=tt["vmtx"][".notdef"][0] if "vmtx" in tt else None))
         o, h = tt["OS/2"], tt["hhea"]
         obs = (tt["head"].unitsPerEm, o.sxHeight, o.sCapHeight, o.sTypoAscender, o.sTypoDescender, o.sTypoLineGap,
                o.usWinAscent, o.usWinDescent, h.ascent, h.descent, h.lineGap)
@@ -182,6 +188,13 @@ def explore(ctx):
         ctx.count(); ctx.klass("metrics:%s/%s" % (flavor, lib))
         if 0 < len(info) < len(ATTRS):
             ctx.nontriv(("vm", repr(sorted(info.items()))))
+    vv = ctx.coq_eval(IMPORTS + "\nFrom U2F Require Import Info.Vertical.",
+                      "fun c : (info * option Z * option Z * option Z * bool * option Z) => let '(i, a, d, g, built, nh) := c in "
+                      "if vertical_obs_ok i a d g built nh then 3 else 2", vcases, chunk=100, tag="Vert")
+    for v, case in zip(vv, vmeta):
+        if v is not None and v != 3:
+            ctx.corr_mismatch(case, "vertical tables / the generated .notdef's advance height differ from Info/Vertical.v "
+                                    "(built iff all three vhea metrics; height = max(ascender - descender, 0))")
     vals = ctx.coq_eval(IMPORTS, FN_VM, cases, chunk=100, tag="VM")
     for v, case in zip(vals, meta):
         if v is None:
